@@ -111,33 +111,48 @@ def childExtents (bs : List Box) : Box :=
   let maxy := maxL (bs.map fun b => b.y + b.cy)
   ⟨minx, miny, maxx - minx, maxy - miny⟩
 
-/-- a shape tree: a leaf shape with its box, or a group with its stored box and members -/
+/-- a shape tree: a leaf shape with its box, or a group with its stored frame (`a:off`/`a:ext`),
+    its child coordinate space (`a:chOff`/`a:chExt`) and members -/
 inductive G where
   | leaf (b : Box)
-  | grp (b : Box) (kids : List G)
+  | grp (b : Box) (ch : Box) (kids : List G)
 deriving Repr
 
 def G.box : G → Box
   | .leaf b => b
-  | .grp b _ => b
+  | .grp b _ _ => b
 
 /-- add `new` to the group addressed by `path` (child indices from this group down) and
-    recalculate extents from that group upwards (`recalculate_extents` is recursive upwards).
+    recalculate extents from that group upwards (`recalculate_extents` is recursive upwards and
+    assigns both the frame and the child coordinate space).
     An index that does not address a group leaves the tree unchanged. -/
 def G.addAt : List Nat → G → G → G
   | _, _, .leaf b => .leaf b
-  | [], new, .grp _ kids =>
+  | [], new, .grp _ _ kids =>
       let kids' := kids ++ [new]
-      .grp (childExtents (kids'.map G.box)) kids'
-  | i :: path, new, .grp b kids =>
+      let e := childExtents (kids'.map G.box)
+      .grp e e kids'
+  | i :: path, new, .grp b ch kids =>
       match kids[i]? with
       | some k =>
         let kids' := kids.set i (G.addAt path new k)
-        .grp (childExtents (kids'.map G.box)) kids'
-      | none => .grp b kids
+        let e := childExtents (kids'.map G.box)
+        .grp e e kids'
+      | none => .grp b ch kids
+
+/-- assigning `left/top/width/height` of the shape addressed by `path` through the public setters:
+    only that shape's own frame changes; nothing is recalculated -/
+def G.setBoxAt : List Nat → Box → G → G
+  | [], nb, .leaf _ => .leaf nb
+  | [], nb, .grp _ ch kids => .grp nb ch kids
+  | _ :: _, _, .leaf b => .leaf b
+  | i :: path, nb, .grp b ch kids =>
+      match kids[i]? with
+      | some k => .grp b ch (kids.set i (G.setBoxAt path nb k))
+      | none => .grp b ch kids
 
 /-- a freshly added empty group: `new_grpSp` has off/ext/chOff/chExt all zero -/
-def G.emptyGrp : G := .grp ⟨0, 0, 0, 0⟩ []
+def G.emptyGrp : G := .grp ⟨0, 0, 0, 0⟩ ⟨0, 0, 0, 0⟩ []
 
 /-! ### freeform -/
 
